@@ -379,7 +379,34 @@ pub fn calc_line(rng: &mut Rng, max_objects: usize) -> String {
                 fails.push(format!("{name}: difficulty attributes hold {got}, the builder gives {exp}"));
             }
         };
-        match d.calculate(&conv) {
+        // every route to difficulty attributes: the converted map, the original map through a
+        // gradual calculator (its last value) and through Performance
+        let mut routes = vec![("calculate(converted)", d.calculate(&conv))];
+        if let Ok(g) = rosu_pp::GradualDifficulty::new_with_mode(d.clone(), &map, mode_of(target)) {
+            if let Some(a) = g.last() {
+                routes.push(("GradualDifficulty(original map).last()", a));
+            }
+        }
+        if let Ok(p) = rosu_pp::Performance::new(&map)
+            .difficulty(d.clone())
+            .try_mode(mode_of(target))
+        {
+            routes.push((
+                "Performance(original map).calculate().difficulty_attributes()",
+                p.calculate().difficulty_attributes(),
+            ));
+        }
+        if let Ok(mut g) = rosu_pp::GradualPerformance::new_with_mode(d.clone(), &map, mode_of(target)) {
+            if let Some(a) = g.last(rosu_pp::any::ScoreState::new()) {
+                routes.push((
+                    "GradualPerformance(original map).last().difficulty_attributes()",
+                    a.difficulty_attributes(),
+                ));
+            }
+        }
+        for (route, attrs) in routes {
+        let mut cmp = |name: &str, got: f64, exp: f64| cmp(&format!("{route}: {name}"), got, exp);
+        match attrs {
             rosu_pp::any::DifficultyAttributes::Osu(a) => {
                 cmp("osu ar", a.ar, want.ar);
                 cmp("osu hp", a.hp, want.hp);
@@ -396,6 +423,7 @@ pub fn calc_line(rng: &mut Rng, max_objects: usize) -> String {
                 cmp("catch ar", a.ar, want.ar);
             }
             rosu_pp::any::DifficultyAttributes::Mania(_) => {}
+        }
         }
         fails
     }));
